@@ -296,7 +296,7 @@ def FlowRule.norm (r : FlowRule) : FlowRule := if r.tcs = 1 && r.cf ≤ 1 then {
 /-- `standaloneStatistic`: what a controller reads (and, for an own array, what `StandaloneStatSlot` writes) -/
 inductive FStat where
   | nop
-  | node (sc iv : Nat)                       -- a view (`GenerateReadStat` / `DefaultMetric`) of the resource node
+  | node (res sc iv : Nat)                   -- a view (`GenerateReadStat` / `DefaultMetric`) of the node of resource `res`
   | own (arr : LA.Arr Nat) (sc iv : Nat)     -- an independent `BucketLeapArray` of pass counts
 deriving Repr
 
@@ -311,9 +311,10 @@ deriving Repr
 def flowStatFor (r : FlowRule) (now : Nat) : FStat :=
   if !r.needStat then .nop else
   let iv := r.statIv
-  if iv = 0 || iv = 1000 then .node 2 1000 else
+  let res := if r.rel = 1 then r.ref else r.res        -- an associated rule reads the referenced resource's node
+  if iv = 0 || iv = 1000 then .node res 2 1000 else
   let sc := if iv > 10000 then 1 else if iv < 500 then 1 else if iv % 500 = 0 then iv / 500 else 1
-  if LA.validView sc iv 20 10000 = 0 then .node sc iv else .own (LA.mk sc (iv / sc) now) sc iv
+  if LA.validView sc iv 20 10000 = 0 then .node res sc iv else .own (LA.mk sc (iv / sc) now) sc iv
 
 def flowCalc : Calc FlowRule FlowSt where
   eq := FlowRule.eq
@@ -331,6 +332,7 @@ inductive Verdict where
   | pass
   | wait (ns : Nat)
   | block
+  | blockAnon        -- refused without naming the rule (`NewTokenResultBlocked`: one request is more than the threshold)
 deriving Repr, DecidableEq
 
 /-- `MemoryAdaptiveTrafficShapingCalculator.CalculateAllowedTokens` (binary64 as in the code); `mem` is
@@ -345,7 +347,7 @@ def adaptiveAllowed (mem : Int) (r : FlowRule) : Float :=
 /-- `ThrottlingChecker.DoCheck` (batch 1) with a binary64 threshold (memory-adaptive calculator) -/
 def throttleCheckF (nowMs : Nat) (thr : Float) (c : Ctl FlowRule FlowSt) : Verdict × Ctl FlowRule FlowSt :=
   if thr ≤ 0.0 then (.block, c) else
-  if 1.0 > thr then (.block, c) else
+  if 1.0 > thr then (.blockAnon, c) else
   let cur := nowMs * 1000000
   let statNs : Nat := (if c.rule.statIv = 0 then 1000 else c.rule.statIv) * 1000000
   let ivl := (Float.ceil (1.0 / thr * statNs.toFloat)).toUInt64.toNat
@@ -406,31 +408,36 @@ def flowCheckOne (nowMs : Nat) (mem : Int) (sum : Nat) (prevQps : Float) (c : Ct
     else if sum.toFloat + 1.0 > allowed then (.block, c) else (.pass, c)
   else if c.rule.tcs = 1 then
     let (allowed, c') := warmUpAllowed nowMs prevQps c
-    if sum.toFloat + 1.0 > allowed then (.block, c') else (.pass, c')
+    if c.rule.cb = 1 then throttleCheckF nowMs allowed c'
+    else if sum.toFloat + 1.0 > allowed then (.block, c') else (.pass, c')
   else if c.rule.cb = 1 then throttleCheck nowMs c
   else if sum + 1 > c.rule.thr then (.block, c) else (.pass, c)
 
 /-- `flow.Slot.Check`: controllers in order; the first refusal ends the scan, waits add up.
-    Result: blocking rule `Id` (if any), total wait (ns), updated controllers. -/
+    Result: blocking rule `Id` (`-` when the refusal names none), total wait (ns), updated controllers. -/
 def flowScan (nowMs : Nat) (mem : Int) (rd : Ctl FlowRule FlowSt → Nat × Float) :
-    List (Ctl FlowRule FlowSt) → Option Nat × Nat × List (Ctl FlowRule FlowSt)
+    List (Ctl FlowRule FlowSt) → Option String × Nat × List (Ctl FlowRule FlowSt)
   | [] => (none, 0, [])
   | c :: cs =>
+    -- (`checkInLocal` means to pass an associated rule whose referenced resource has no node yet, but its `actual == nil`
+    -- compares an interface holding a nil `*ResourceNode`, which is never nil: the rule is always asked; the checkers read
+    -- the statistic bound at construction, not that node)
     match flowCheckOne nowMs mem (rd c).1 (rd c).2 c with
-    | (.block, c') => (some c.rule.id, 0, c' :: cs)
+    | (.block, c') => (some (toString c.rule.id), 0, c' :: cs)
+    | (.blockAnon, c') => (some "-", 0, c' :: cs)
     | (.pass, c') => let (b, w, cs') := flowScan nowMs mem rd cs; (b, w, c' :: cs')
     | (.wait ns, c') => let (b, w, cs') := flowScan nowMs mem rd cs; (b, w + ns, c' :: cs')
 
-/-- what a controller's read statistic returns at `now`: `(GetSum(pass), GetPreviousQPS(pass))`; `node` is the pass
-    array of the resource node -/
-def flowRead (node : LA.Arr Nat) (now : Nat) (c : Ctl FlowRule FlowSt) : Nat × Float :=
+/-- what a controller's read statistic returns at `now`: `(GetSum(pass), GetPreviousQPS(pass))`; `node res` is the pass
+    array of that resource's node -/
+def flowRead (node : Nat → LA.Arr Nat) (now : Nat) (c : Ctl FlowRule FlowSt) : Nat × Float :=
   let rd (a : LA.Arr Nat) (sc iv : Nat) : Nat × Float :=
     let lv := iv / sc
     let prev := if lv ≤ now then LA.viewSum a iv (now - lv) else 0
     (LA.viewSum a iv now, prev.toFloat / (iv.toFloat / 1000.0))
   match c.st.stat with
   | .nop => (0, 0.0)
-  | .node sc iv => rd node sc iv
+  | .node res sc iv => rd (node res) sc iv
   | .own a sc iv => rd a sc iv
 
 /-- `StandaloneStatSlot.OnEntryPassed`: every controller with an own array counts the pass -/
@@ -446,7 +453,8 @@ structure HotRule where
   res : Nat
   mtype : Nat        -- MetricType: 0 Concurrency, 1 QPS
   cb : Nat           -- ControlBehavior: 0 Reject, 1 Throttling
-  pidx : Nat         -- ParamIndex
+  pidx : Int         -- ParamIndex (negative: from the end)
+  pkey : Nat         -- ParamKey (0 = none): the attachment to look at first
   thr : Nat
   maxQ : Nat         -- MaxQueueingTimeMs
   burst : Nat
@@ -459,14 +467,14 @@ deriving Repr, DecidableEq
 
 /-- `Rule.Equals` (`reflect.DeepEqual` on the item maps tells a nil map from an empty one) -/
 def HotRule.eq (o n : HotRule) : Bool :=
-  o.res == n.res && o.mtype == n.mtype && o.cb == n.cb && o.cap == n.cap && o.pidx == n.pidx && o.thr == n.thr
+  o.res == n.res && o.mtype == n.mtype && o.cb == n.cb && o.cap == n.cap && o.pidx == n.pidx && o.pkey == n.pkey && o.thr == n.thr
     && o.dur == n.dur && o.items == n.items && (o.items != 2 || (o.sval == n.sval && o.sthr == n.sthr))
     && (if o.cb == 0 then o.burst == n.burst else if o.cb == 1 then o.maxQ == n.maxQ else false)
 
 def HotRule.sr (o n : HotRule) : Bool :=
   o.res == n.res && o.cb == n.cb && o.cap == n.cap && o.dur == n.dur && o.mtype == n.mtype
 
-def HotRule.valid (r : HotRule) : Bool := !(r.mtype == 1 && r.dur == 0)
+def HotRule.valid (r : HotRule) : Bool := !(r.mtype == 1 && r.dur == 0) && !(r.pidx > 0 && r.pkey != 0)
 
 /-- `newBaseTrafficShapingControllerWithMetric` replaces a nil `SpecificItems` by an empty map in the rule object -/
 def HotRule.norm (r : HotRule) : HotRule := if r.items = 0 then { r with items := 1 } else r
@@ -490,6 +498,20 @@ def hotCalc : Calc HotRule HotSt where
   norm := HotRule.norm
   fresh := fun _ _ => {}
   reuse := fun _ old _ => old
+
+/-- what a request carries for the hotspot rules: positional arguments and attachments (values ≥ 1; 0 stands for nil) -/
+structure Req where
+  args : List Nat := []
+  att : List (Nat × Nat) := []
+deriving Repr
+
+/-- `ExtractArgs`: the attachment named by `ParamKey` if present, else the argument at `ParamIndex` (negative: counted
+    from the end); 0 = nothing to look at, the rule is skipped for this request -/
+def hotExtract (r : HotRule) (q : Req) : Nat :=
+  let byKey := if r.pkey = 0 then 0 else ((q.att.find? (·.1 == r.pkey)).map (·.2)).getD 0
+  if byKey != 0 then byKey else
+  let idx : Int := if r.pidx < 0 then (q.args.length : Int) + r.pidx else r.pidx
+  if idx < 0 then 0 else (q.args[idx.toNat]?).getD 0
 
 def kvGet (xs : List (Nat × Nat)) (k : Nat) : Option Nat := (xs.find? (·.1 == k)).map (·.2)
 def kvSet (xs : List (Nat × Nat)) (k v : Nat) : List (Nat × Nat) := (k, v) :: xs.filter (·.1 != k)
@@ -559,13 +581,15 @@ def hotCheckOne (now : Nat) (arg : Nat) (c : Ctl HotRule HotSt) : Verdict × Ctl
     | (true, c') => (.pass, c')
     | (false, c') => (.block, c')
 
-/-- `hotspot.Slot.Check`: controllers in order, the first refusal ends the scan, waits add up -/
-def hotScan (now : Nat) (arg : Nat) : List (Ctl HotRule HotSt) → Option Nat × Nat × List (Ctl HotRule HotSt)
+/-- `hotspot.Slot.Check`: controllers in order (those with nothing to look at are skipped), the first refusal ends the
+    scan, waits add up -/
+def hotScan (now : Nat) (q : Req) : List (Ctl HotRule HotSt) → Option Nat × Nat × List (Ctl HotRule HotSt)
   | [] => (none, 0, [])
   | c :: cs =>
-    match hotCheckOne now arg c with
+    match (if hotExtract c.rule q = 0 then (Verdict.pass, c) else hotCheckOne now (hotExtract c.rule q) c) with
     | (.block, c') => (some c.rule.id, 0, c' :: cs)
-    | (.pass, c') => let (b, w, cs') := hotScan now arg cs; (b, w, c' :: cs')
-    | (.wait ns, c') => let (b, w, cs') := hotScan now arg cs; (b, w + ns, c' :: cs')
+    | (.blockAnon, c') => (some c.rule.id, 0, c' :: cs)
+    | (.pass, c') => let (b, w, cs') := hotScan now q cs; (b, w, c' :: cs')
+    | (.wait ns, c') => let (b, w, cs') := hotScan now q cs; (b, w + ns, c' :: cs')
 
 end Sentinel.Reuse
